@@ -209,6 +209,9 @@ class Index:
             except SyntaxError as e:
                 raise AnalysisError(f"cannot parse {rel}: {e}") from e
             if os.environ.get("GV_NO_CANON") != "1":
+                from gv import canon as _canon0
+
+                _canon0.canonicalise_idioms(tree)
                 _normalise_locals(rel, tree)
                 if os.environ.get("GV_CANON_TESTS", "1") == "1":
                     from gv import canon as _canon
